@@ -56,7 +56,11 @@ MANIFEST = dict(
          "/ C10_position_roundtrip), sample registered under the written id, tempo changes at the in-memory times and tempos, "
          "title/artist/level/LNOBJ/WAV table/misc retained. C05_bms_write_read composes it with C04_bms_read_text: BMSMap.read of the "
          "written text is the chart (rows as multisets, same time bounds) whenever the written text lies in the reader's text-level "
-         "domain (text_domb, read_guards: decidable on the written lines). Parts, each for all inputs: C05_write_note_lines_objs "
+         "domain (text_domb, read_guards: decidable on the written lines). C05_bms_write_read_chart: with chart-level hypotheses only "
+         "(write_dom_any, header_guards, a #BPM rendering not ending in a blank) the written text is in the reader's domain, read(write(c)) "
+         "returns and is c (tempo list included); the guards that reflect a real loss have refuted witnesses replayed on the code (title "
+         "ending in a blank is stripped; a misc key starting with WAV is filed under samples). C05_bms_write_timeline: the bound as "
+         "timeline_close_by at res_of FBms (for C09). Parts, each for all inputs: C05_write_note_lines_objs "
          "(the note section holds exactly the rows, nothing merged or dropped), C05_lane_pairs (any listing of a lane's hits and "
          "head/tail pairs is read back to them), find_lcm_spec, slot arithmetic, line shape, no-merge, codecs; layout injectivity by "
          "vm_compute on the regenerated tables. Without the ':.3f' guard the statement is refuted by a machine-checked witness = KNOWN "
